@@ -27,23 +27,31 @@ structure Measure where
   filters : List Expr := []               -- metric-level filters
   deriving Repr, Inhabited, DecidableEq
 
+structure Segment where
+  name : String
+  sql : Expr                               -- columns: "{model}.x", bare "x", or qualified
+  deriving Repr, Inhabited, DecidableEq
+
 structure SModel where
   name : String
   source : Source
   pk : List String := ["id"]
   dims : List Dim := []
   measures : List Measure := []
+  segments : List Segment := []
   defaultTimeDim : Option String := none
   defaultGrain : Option String := none
   deriving Repr, Inhabited, DecidableEq
 
 def SModel.dim? (m : SModel) (n : String) : Option Dim := m.dims.find? (·.name == n)
 def SModel.measure? (m : SModel) (n : String) : Option Measure := m.measures.find? (·.name == n)
+def SModel.segment? (m : SModel) (n : String) : Option Segment := m.segments.find? (·.name == n)
 
 structure Query where
   metrics : List String := []
   dims : List String := []                 -- raw references, e.g. "orders.created__month"
   filters : List Expr := []                -- columns are qualified "model.field" (or bare)
+  segments : List String := []             -- "model.segment"
   orderBy : List (String × Bool) := []     -- (field as written, DESC?)
   limit : Option Nat := none
   offset : Option Nat := none
